@@ -53,6 +53,17 @@ Fixpoint alloc_seq (n : nat) : M (bool * Z) :=
    Returns the number of heap blocks the new stream owns.  On any failure everything obtained
    so far is released (srtp_stream_dealloc(str, NULL)) and the call exits with the status. *)
 
+(* the header-extension cipher of a policy (srtp_stream_alloc): the RTP cipher type, except that
+   a GCM policy encrypts header extensions with the corresponding ICM cipher (RFC 7714 8.3) *)
+Definition xtn_cipher_id (p : policy) : Z :=
+  if cfg_gcm_c && (cp_cipher (p_rtp p) =? SRTP_AES_GCM_128_c) then SRTP_AES_ICM_128_c
+  else if cfg_gcm_c && (cp_cipher (p_rtp p) =? SRTP_AES_GCM_256_c) then SRTP_AES_ICM_256_c
+  else cp_cipher (p_rtp p).
+Definition xtn_cipher_klen (p : policy) : Z :=
+  if cfg_gcm_c && (cp_cipher (p_rtp p) =? SRTP_AES_GCM_128_c) then SRTP_AES_ICM_128_KEY_LEN_WSALT_c
+  else if cfg_gcm_c && (cp_cipher (p_rtp p) =? SRTP_AES_GCM_256_c) then SRTP_AES_ICM_256_KEY_LEN_WSALT_c
+  else cp_keylen (p_rtp p).
+
 (* cipher object: ICM = struct + context (the struct is freed again if the context fails) *)
 Definition alloc_cipher (id klen : Z) (owned : Z) : M Z :=
   let st := cipher_alloc_status id klen in
@@ -62,6 +73,13 @@ Definition alloc_cipher (id klen : Z) (owned : Z) : M Z :=
     r <- alloc_seq (zn nb) ;;
     if fst r then ret (owned + nb)
     else free_n (owned + snd r) ;;; exit_with st_alloc_fail.
+
+(* the GCM alloc function also checks the tag length it is given (16 or 8); same status and same
+   point (before any allocation) as its key-length check *)
+Definition alloc_cipher_t (id klen tlen : Z) (owned : Z) : M Z :=
+  if cfg_gcm_c && is_gcm_alg id && negb ((tlen =? GCM_AUTH_TAG_LEN_c) || (tlen =? GCM_AUTH_TAG_LEN_8_c))
+  then free_n owned ;;; exit_with st_bad_param
+  else alloc_cipher id klen owned.
 
 Definition alloc_auth (id klen tlen : Z) (owned : Z) : M Z :=
   let st := auth_alloc_status id klen tlen in
@@ -77,9 +95,9 @@ Fixpoint alloc_keys (n : nat) (p : policy) (owned : Z) : M Z :=
   match n with
   | O => ret owned
   | S n' =>
-    o1 <- alloc_cipher (cp_cipher (p_rtp p)) (cp_keylen (p_rtp p)) owned ;;
+    o1 <- alloc_cipher_t (cp_cipher (p_rtp p)) (cp_keylen (p_rtp p)) (cp_taglen (p_rtp p)) owned ;;
     o2 <- alloc_auth (cp_auth (p_rtp p)) (cp_authkeylen (p_rtp p)) (cp_taglen (p_rtp p)) o1 ;;
-    o3 <- alloc_cipher (cp_cipher (p_rtcp p)) (cp_keylen (p_rtcp p)) o2 ;;
+    o3 <- alloc_cipher_t (cp_cipher (p_rtcp p)) (cp_keylen (p_rtcp p)) (cp_taglen (p_rtcp p)) o2 ;;
     o4 <- alloc_auth (cp_auth (p_rtcp p)) (cp_authkeylen (p_rtcp p)) (cp_taglen (p_rtcp p)) o3 ;;
     o5 <- alloc_block o4 ;;   (* key limit *)
     alloc_keys n' p o5
@@ -88,7 +106,7 @@ Fixpoint alloc_keys (n : nat) (p : policy) (owned : Z) : M Z :=
 Fixpoint alloc_xtn_ciphers (n : nat) (p : policy) (owned : Z) : M Z :=
   match n with
   | O => ret owned
-  | S n' => o <- alloc_cipher (cp_cipher (p_rtp p)) (cp_keylen (p_rtp p)) owned ;; alloc_xtn_ciphers n' p o
+  | S n' => o <- alloc_cipher (xtn_cipher_id p) (xtn_cipher_klen p) owned ;; alloc_xtn_ciphers n' p o
   end.
 
 Definition has_xtn (p : policy) : bool := negb (match p_enc_xtn p with [] => true | _ => false end).
@@ -109,10 +127,13 @@ Definition full_key_length (alg : Z) : Z :=
   if (alg =? SRTP_NULL_CIPHER_c) || (alg =? SRTP_AES_ICM_128_c) then SRTP_AES_ICM_128_KEY_LEN_WSALT_c
   else if alg =? SRTP_AES_ICM_192_c then SRTP_AES_ICM_192_KEY_LEN_WSALT_c
   else if alg =? SRTP_AES_ICM_256_c then SRTP_AES_ICM_256_KEY_LEN_WSALT_c
+  else if alg =? SRTP_AES_GCM_128_c then SRTP_AES_GCM_128_KEY_LEN_WSALT_c
+  else if alg =? SRTP_AES_GCM_256_c then SRTP_AES_GCM_256_KEY_LEN_WSALT_c
   else 0.
 Definition base_key_length (alg klen : Z) : Z :=
   if alg =? SRTP_NULL_CIPHER_c then 0
   else if is_icm_alg alg then klen - SRTP_SALT_LEN_c
+  else if is_gcm_alg alg then klen - SRTP_AEAD_SALT_LEN_c
   else klen.
 
 (* keystream of the KDF cipher for one label *)
@@ -176,6 +197,72 @@ Definition derive_keys (p : policy) (mkey mki : bytes) : Z * option derived :=
                                  k_salt := salt; k_csalt := csalt; k_mki := mki |};
                     d_overflow := snd t8 |}).
 
+(* srtp_stream_init_keys for a policy whose RTP cipher is GCM AND that encrypts header extensions: the
+   header-extension cipher is the ICM cipher of the matching size, keyed from its own KDF instance over the
+   first base + salt octets of the master key (the 12-octet GCM salt zero-padded to the ICM salt length).
+   Everything else as derive_keys.  (The second KDF cipher's two allocations are not modelled: heap counters
+   are not compared in the GCM-capable configurations.) *)
+Definition derive_keys_gcm (p : policy) (mkey mki : bytes) : Z * option derived :=
+  let rtp_alg := cipher_alg_of (cp_cipher (p_rtp p)) (cp_keylen (p_rtp p)) in
+  let rtcp_alg := cipher_alg_of (cp_cipher (p_rtcp p)) (cp_keylen (p_rtcp p)) in
+  let in1 := full_key_length rtp_alg in
+  let in2 := full_key_length rtcp_alg in
+  let input_keylen := if in1 <? in2 then in2 else in1 in
+  let rtp_keylen := cp_keylen (p_rtp p) in
+  let rtcp_keylen := cp_keylen (p_rtcp p) in
+  let rtp_base := base_key_length rtp_alg rtp_keylen in
+  let rtp_salt := rtp_keylen - rtp_base in
+  if (MAX_SRTP_KEY_LEN_c <? rtp_keylen) || (MAX_SRTP_KEY_LEN_c <? rtcp_keylen)
+     || (MAX_SRTP_KEY_LEN_c <? cp_authkeylen (p_rtp p)) || (MAX_SRTP_KEY_LEN_c <? cp_authkeylen (p_rtcp p))
+  then (st_bad_param, None)
+  else if (rtp_keylen <? input_keylen) && (rtcp_keylen <? input_keylen) then (st_bad_param, None)
+  else
+    let kdf_keylen :=
+      if (kdf_keylen_small_c <? rtp_keylen) || (kdf_keylen_small_c <? rtcp_keylen) || (kdf_keylen_small_c <? input_keylen)
+      then kdf_keylen_big_c else kdf_keylen_small_c in
+    let t0 := (splice 0 (take (zn input_keylen) mkey) (zeros (zn MAX_SRTP_KEY_LEN_c)), false) in
+    (* KDF cipher: ICM-128 for 30, ICM-256 for 46 *)
+    let kalg := if kdf_keylen =? SRTP_AES_ICM_256_KEY_LEN_WSALT_c then SRTP_AES_ICM_256_c else SRTP_AES_ICM_128_c in
+    let kdf := cipher_key kalg kdf_keylen (fst t0) in
+    let t1 := tmp_write t0 0 (kdf_generate kdf label_rtp_encryption_c rtp_base) in
+    let t2 := if 0 <? rtp_salt then tmp_write t1 rtp_base (kdf_generate kdf label_rtp_salt_c rtp_salt) else t1 in
+    let salt := if 0 <? rtp_salt then slice (zn rtp_base) (zn SRTP_AEAD_SALT_LEN_c) (fst t2) else zeros (zn SRTP_AEAD_SALT_LEN_c) in
+    let rtp_c := cipher_key rtp_alg rtp_keylen (fst t2) in
+    (* header-extension cipher (same type as the RTP cipher: main KDF reused) *)
+    let '(t4, xtn_c) :=
+      if has_xtn p then
+          (* a GCM policy: ICM cipher of the matching size, keyed from its own KDF instance over the first
+             base + salt octets of the master key (the 12-octet GCM salt zero-padded to the ICM salt length) *)
+          let xklen := xtn_cipher_klen p in
+          let xalg := cipher_alg_of (xtn_cipher_id p) xklen in
+          let xbase := base_key_length xalg xklen in
+          let xsalt := if rtp_salt <? xklen - xbase then rtp_salt else xklen - xbase in
+          let xk := splice 0 (take (zn (xbase + xsalt)) mkey) (zeros (zn MAX_SRTP_KEY_LEN_c)) in
+          let xkdf := cipher_key kalg kdf_keylen xk in
+          let t3 := tmp_write t2 0 (kdf_generate xkdf label_rtp_header_encryption_c xbase) in
+          let t4 := if 0 <? xsalt then tmp_write t3 xbase (kdf_generate xkdf label_rtp_header_salt_c xsalt) else t3 in
+          (t4, Some (cipher_key xalg xklen (fst t4)))
+      else (t2, None) in
+    let t5 := tmp_write t4 0 (kdf_generate kdf label_rtp_msg_auth_c (cp_authkeylen (p_rtp p))) in
+    let rtp_a := auth_key (cp_auth (p_rtp p)) (cp_authkeylen (p_rtp p)) (cp_taglen (p_rtp p)) (fst t5) in
+    let rtcp_base := base_key_length rtcp_alg rtcp_keylen in
+    let rtcp_salt := rtcp_keylen - rtcp_base in
+    let t6 := tmp_write t5 0 (kdf_generate kdf label_rtcp_encryption_c rtcp_base) in
+    let t7 := if 0 <? rtcp_salt then tmp_write t6 rtcp_base (kdf_generate kdf label_rtcp_salt_c rtcp_salt) else t6 in
+    let csalt := if 0 <? rtcp_salt then slice (zn rtcp_base) (zn SRTP_AEAD_SALT_LEN_c) (fst t7) else zeros (zn SRTP_AEAD_SALT_LEN_c) in
+    let rtcp_c := cipher_key rtcp_alg rtcp_keylen (fst t7) in
+    let t8 := tmp_write t7 0 (kdf_generate kdf label_rtcp_msg_auth_c (cp_authkeylen (p_rtcp p))) in
+    let rtcp_a := auth_key (cp_auth (p_rtcp p)) (cp_authkeylen (p_rtcp p)) (cp_taglen (p_rtcp p)) (fst t8) in
+    (st_ok, Some {| d_keys := {| k_rtp_c := rtp_c; k_rtp_a := rtp_a; k_xtn_c := xtn_c;
+                                 k_rtcp_c := rtcp_c; k_rtcp_a := rtcp_a;
+                                 k_salt := salt; k_csalt := csalt; k_mki := mki |};
+                    d_overflow := snd t8 |}).
+
+
+Definition derive_keys_any (p : policy) (mkey mki : bytes) : Z * option derived :=
+  if cfg_gcm_c && has_xtn p && is_gcm_alg (cipher_alg_of (cp_cipher (p_rtp p)) (cp_keylen (p_rtp p)))
+  then derive_keys_gcm p mkey mki else derive_keys p mkey mki.
+
 (* status used by the drivers for "the model predicts an out-of-bounds access in the library" *)
 Definition st_model_oob : Z := -16.
 
@@ -188,7 +275,7 @@ Definition init_keys (p : policy) (mki_size : Z) (km : bytes * bytes) (owned : Z
            | _ => ok <- alloc1 ;; if ok then ret (owned + 1) else exit_with st_init_fail
            end
          else ret owned) ;;
-  match derive_keys p (fst km) (if mki_size =? 0 then [] else take (zn mki_size) (snd km ++ zeros (zn mki_size))) with
+  match derive_keys_any p (fst km) (if mki_size =? 0 then [] else take (zn mki_size) (snd km ++ zeros (zn mki_size))) with
   | (st, None) => exit_with st
   | (_, Some d) =>
     (* srtp_kdf_init: cipher struct + context *)
